@@ -15,7 +15,7 @@ use mc_common::cli::{self, die};
 use mc_common::evidence::{Evidence, Level};
 use mc_common::findings::{self, Violation};
 use mc_common::{json, par, Value};
-use model::{declarative, has_timestamp_ties, RgsSnapshot};
+use model::{declarative, has_conflict, has_timestamp_ties, RgsSnapshot};
 use run::{execute, steps_string, Stats, Step};
 use std::collections::{BTreeMap, BTreeSet};
 use std::sync::atomic::{AtomicBool, Ordering};
@@ -63,7 +63,7 @@ struct PoolRef {
 	exts: Vec<Vec<usize>>,
 	/// for pools where order must not matter: canonical bytes of the final graph of the first
 	/// order, and that graph re-read from the canonical bytes
-	inv: Option<(Vec<u8>, real::Graph, Vec<Step>)>,
+	inv: Option<(Vec<u8>, real::Graph, Vec<Step>, Vec<u8>)>,
 }
 
 struct JobResult {
@@ -91,6 +91,7 @@ fn run_job(w: &World, pool: &Pool, pr: &PoolRef, range: (usize, usize), deadline
 	};
 	let mut per_oracle: BTreeMap<String, usize> = BTreeMap::new();
 	let mut nexec = 0u64;
+	let conflict = has_conflict(u, &pool.msgs);
 	for ei in range.0..range.1 {
 		if Instant::now() >= deadline {
 			capped.store(true, Ordering::Relaxed);
@@ -113,7 +114,7 @@ fn run_job(w: &World, pool: &Pool, pr: &PoolRef, range: (usize, usize), deadline
 				if let Some(out) = out {
 					jr.finals.insert(mc_common::digest128(&out.final_n1));
 					let plain = steps.iter().all(|s| !s.is_op());
-					if plain && pool.constrained {
+					if plain && pool.constrained && !conflict {
 						jr.declarative_checked += 1;
 						let d = declarative(u, &seq);
 						if d != out.final_snap {
@@ -123,8 +124,17 @@ fn run_job(w: &World, pool: &Pool, pr: &PoolRef, range: (usize, usize), deadline
 								None,
 							);
 						}
-						if let Some((ref_n1, ref_graph, ref_steps)) = &pr.inv {
+						if let Some((ref_n1, ref_graph, ref_steps, ref_n0s)) = &pr.inv {
 							jr.invariance_checked += 1;
+							if out.final_n1 == *ref_n1 && out.final_n0s != *ref_n0s {
+								// informational: equal graphs whose stored node channel lists are in a different order
+								jr.stats.wit("info_final_graphs_differ_only_in_node_channel_list_order");
+								if let (Ok(a), Ok(b)) = (real::read_graph(&out.final_n0s), real::read_graph(ref_n0s)) {
+									if a != b {
+										jr.stats.wit("info_networkgraph_eq_false_only_because_of_node_channel_list_order");
+									}
+								}
+							}
 							if out.final_n1 != *ref_n1 {
 								push(
 									"order-dependent-final-graph".into(),
@@ -189,7 +199,7 @@ fn evaluate(w: &World, era: Era, steps: &[Step], cmp: Option<&[Step]>) -> Vec<(S
 				}
 				ok
 			};
-			if respects {
+			if respects && !has_conflict(u, &plain) {
 				let d = declarative(u, &plain);
 				if d != out.final_snap {
 					fails.push(("final-graph-is-not-latest-valid-per-key".into(), format!("real {} | expected {}", out.final_snap.describe(u), d.describe(u))));
@@ -315,7 +325,7 @@ fn main() {
 	}
 
 	let mut ev = Evidence::new(PROPERTY, args.tier, args.seed, Level::ModelChecking);
-	let cap_s = if args.wall_cap_s > 0 { args.wall_cap_s } else if args.tier.is_thorough() { 1800 } else { 50 };
+	let cap_s = if args.wall_cap_s > 0 { args.wall_cap_s } else if args.tier.is_thorough() { 2400 } else { 50 };
 	let start = Instant::now();
 	let deadline = start + Duration::from_secs(cap_s);
 	let pl = plan(&w.us, args.tier);
@@ -326,12 +336,12 @@ fn main() {
 	let refs: Vec<PoolRef> = par::map(&pools, args.threads, |_, p| {
 		let u = w.u(p.era);
 		let exts = extensions(u, p);
-		let inv = if p.constrained && !has_timestamp_ties(u, &p.msgs) && !exts.is_empty() {
+		let inv = if p.constrained && !has_timestamp_ties(u, &p.msgs) && !has_conflict(u, &p.msgs) && !exts.is_empty() {
 			let steps: Vec<Step> = exts[0].iter().map(|i| Step::Msg(*i)).collect();
 			let mut st = Stats::default();
 			let o = execute(u, w.r(p.era), &steps, &mut st, false);
 			let g = real::read_graph(&o.final_n1).unwrap_or_else(|e| die(&format!("canonical encoding unreadable: {}", e)));
-			Some((o.final_n1, g, steps))
+			Some((o.final_n1, g, steps, o.final_n0s))
 		} else {
 			None
 		};
@@ -341,7 +351,31 @@ fn main() {
 	.map(|r| r.unwrap_or_else(|e| die(&format!("panic while preparing a pool: {}", e))))
 	.collect();
 
-	// jobs: (pool, range of orders); large pools first so the tail is short
+	if args.opt("plan_only").is_some() {
+		let mut fam: BTreeMap<&'static str, (u64, u64, u64)> = BTreeMap::new();
+		for (pi, pr) in refs.iter().enumerate() {
+			let p = &pools[pi];
+			let e = fam.entry(p.family).or_insert((0, 0, 0));
+			e.0 += 1;
+			e.1 += pr.exts.len() as u64;
+			if let Some(o) = pr.exts.first() {
+				let mut n = 0u64;
+				for seq in dup_variants(o, p.dup) {
+					with_ops(&seq, &p.ops, p.max_ops, true, &mut |_| n += 1);
+				}
+				e.2 += n * pr.exts.len() as u64;
+			}
+		}
+		let mut tot = 0;
+		for (f, (np, no, ne)) in &fam {
+			println!("{:<32} pools {:>6} orders {:>9} executions {:>11}", f, np, no, ne);
+			tot += ne;
+		}
+		println!("total executions {}", tot);
+		std::process::exit(0);
+	}
+
+	// jobs: (pool, range of orders)
 	let mut jobs: Vec<(usize, (usize, usize))> = Vec::new();
 	for (pi, pr) in refs.iter().enumerate() {
 		let p = &pools[pi];
@@ -367,6 +401,7 @@ fn main() {
 	let mut finals: BTreeSet<u128> = BTreeSet::new();
 	let (mut inv_checked, mut decl_checked, mut skipped) = (0u64, 0u64, 0u64);
 	let mut fam_exec: BTreeMap<&'static str, u64> = BTreeMap::new();
+	let mut fam_skipped: BTreeMap<&'static str, u64> = BTreeMap::new();
 	let mut fam_sampled: BTreeSet<&'static str> = BTreeSet::new();
 	for (ji, r) in results.into_iter().enumerate() {
 		let r = match r {
@@ -380,6 +415,7 @@ fn main() {
 		inv_checked += r.invariance_checked;
 		decl_checked += r.declarative_checked;
 		skipped += r.skipped_orders;
+		*fam_skipped.entry(r.family).or_insert(0) += r.skipped_orders;
 		if let Some(s) = r.sample {
 			if fam_sampled.insert(r.family) {
 				ev.sample(s, 40);
@@ -401,7 +437,15 @@ fn main() {
 			continue;
 		}
 		*c += 1;
-		let s = shrink(&w, v);
+		let mut s = shrink(&w, v);
+		if s.era == Era::Future && s.steps.iter().all(|x| !x.is_op()) && s.compare_with.as_ref().map(|c| c.iter().all(|x| !x.is_op())).unwrap_or(true) {
+			// without operations the eras behave identically: report under one identity
+			let f = evaluate(&w, Era::Past, &s.steps, s.compare_with.as_deref());
+			if let Some((_, d)) = f.iter().find(|(o, _)| *o == s.oracle) {
+				s.era = Era::Past;
+				s.detail = d.clone();
+			}
+		}
 		let u = w.u(s.era);
 		let identity = format!(
 			"{}|{}|{}{}",
@@ -430,7 +474,7 @@ fn main() {
 			if c.starts_with("invalid:") && rej == 0 {
 				missing.push(format!("{} never rejected", c));
 			}
-			if (c.starts_with("valid:") || c.starts_with("rel:")) && acc == 0 {
+			if (c.starts_with("valid:") || c.starts_with("rel:") || c.starts_with("conflict:")) && acc == 0 {
 				missing.push(format!("{} never accepted", c));
 			}
 			if c.starts_with("rel:") && rej == 0 {
@@ -459,6 +503,8 @@ fn main() {
 			"rgs_added_channel",
 			"rgs_replaced_direction",
 			"rgs_left_direction_alone",
+			"pruning_kept_snapshot_channel_lacking_a_direction",
+			"pruning_removed_snapshot_channel_lacking_a_direction",
 		] {
 			if stats.witnesses.get(wname).cloned().unwrap_or(0) == 0 {
 				missing.push(format!("witness {} never observed", wname));
@@ -492,6 +538,8 @@ fn main() {
 	ev.set("pools_with_order_invariance", inv_pools);
 	ev.set("latest_valid_per_key_comparisons", decl_checked);
 	ev.set("executions_per_family", json!(fam_exec));
+	ev.set("orders_skipped_by_cap_per_family", json!(fam_skipped.iter().filter(|(_, v)| **v > 0).collect::<BTreeMap<_, _>>()));
+	ev.set("families_fully_enumerated", json!(fam_skipped.iter().filter(|(_, v)| **v == 0).map(|(k, _)| *k).collect::<Vec<_>>()));
 	ev.set("accepted_per_class", json!(stats.accepted));
 	ev.set("rejected_per_class", json!(stats.rejected));
 	ev.set("witnesses", json!(stats.witnesses));
